@@ -79,7 +79,7 @@ def adopt(prop, src, name):
     print(json.dumps({k: (res[k][:4] if isinstance(res[k], list) else res[k]) for k in res if k in ("confirmed", "demo_clean_rc", "demo_patched_rc", "suite_missing", "apply_rc")}))
     if rc != 0:
         return 1
-    dst = os.path.join(VERIF, "seeded", f"{prop}-{name}")
+    dst = os.path.join(os.environ.get("SEED_STAGE", "/root/seeded_stage"), f"{prop}-{name}")
     os.makedirs(dst, exist_ok=True)
     for f in ("patch.diff", "demo.py", "notes.md"):
         if os.path.exists(os.path.join(src, f)):
